@@ -48,7 +48,9 @@ ENTRY = dict(
                    "in cut_finding, a new np.random/random/uuid/time/id/hash use breaks a proof obligation) and (ii) the history correspondence (dynamic: fingerprints of "
                    "the real registries, object identities, both generator states and canonical results after every call of 36+ histories per run, each also against a "
                    "fresh interpreter; PYTHONHASHSEED drawn per interpreter for one history variant and half of the fresh interpreters; one variant passes the same argument "
-                   "objects again). Passing the same argument objects twice (argument mutation) has no theorem: arguments are immutable values in the model. State inside "
+                   "objects again; the wire-cuts-only searches of every family — gate_lo=False flips, star, two gate blocks sharing a qubit — are thus repeated on the SAME circuit object, and the "
+                   "harness records what find_cuts returned even when it wrote into that object, so leftovers of the first call surface as a different result of the repetition; "
+                   "'input circuit unchanged' is a monitored contract). Passing the same argument objects twice (argument mutation) has no theorem: arguments are immutable values in the model. State inside "
                    "Qiskit/numpy/rustworkx (e.g. Qiskit's counter that names anonymous registers) is outside the model. Remaining hypotheses: exact_class c (input "
                    "restriction: the property speaks about these calls), import_state / wf_registry (precondition, discharged for the import-time state and preserved by "
                    "every history), circ_wf + fuel bound (precondition of the totality corollary), the 2^-40 margin (input restriction of the partial threshold theorem).",
